@@ -109,12 +109,30 @@ Proof.
 Qed.
 
 (* glob_to_regex never leaves the modelled fragment, and parsing its output gives the
-   token-by-token translation of the pattern *)
+   token-by-token translation of the pattern under the flag `s` *)
 Lemma parse_glob_to_regex : forall p,
-  parse (glob_to_regex p) = Some (map tok_atom (glob_tokens p)).
+  parse (glob_to_regex p) = Some (true, map tok_atom (glob_tokens p)).
 Proof.
-  intros p. unfold glob_to_regex, parse. change (c_caret =? c_caret) with true. cbv iota.
-  apply (parse_body_glob_n (length p)). lia.
+  intros p. unfold glob_to_regex, flag_s_text, parse. cbn [app].
+  change ((c_lparen =? c_lparen) && (c_quest =? c_quest) && (c_s =? c_s) && (c_rparen =? c_rparen))
+    with true. cbv iota.
+  unfold parse_anchored. change (c_caret =? c_caret) with true. cbv iota.
+  rewrite (parse_body_glob_n (length p)) by lia. reflexivity.
+Qed.
+
+(* the translation before the fix dae5143: same atoms, flag off *)
+Lemma parse_glob_to_regex_old : forall p,
+  parse (glob_to_regex_old p) = Some (false, map tok_atom (glob_tokens p)).
+Proof.
+  intros p.
+  assert (Ha : parse_anchored (glob_to_regex_old p) = Some (map tok_atom (glob_tokens p))).
+  { unfold glob_to_regex_old, parse_anchored. change (c_caret =? c_caret) with true. cbv iota.
+    apply (parse_body_glob_n (length p)). lia. }
+  unfold parse.
+  assert (Hhd : exists rest, glob_to_regex_old p = c_caret :: rest) by (eexists; reflexivity).
+  destruct Hhd as (rest & E). rewrite E in *.
+  destruct rest as [|b [|c [|d rest']]]; try (rewrite Ha; reflexivity).
+  change (c_caret =? c_lparen) with false. cbn [andb]. rewrite Ha. reflexivity.
 Qed.
 
 (* ================================================================================ *)
@@ -136,12 +154,25 @@ Proof. intros x t H. cbn in H. apply andb_true_iff in H. tauto. Qed.
 Lemma no_nl_head : forall x t, no_nl (x :: t) = true -> not_nl x = true.
 Proof. intros x t H. cbn in H. apply andb_true_iff in H. tauto. Qed.
 
-Lemma rmatch_tmatch : forall ts s, no_nl s = true ->
-  rmatch (map tok_atom ts) s = tmatch ts s.
+(* under (?s) the two matchers agree on EVERY haystack *)
+Lemma amatch_tmatch : forall ts s, amatch true (map tok_atom ts) s = tmatch ts s.
+Proof.
+  induction ts as [|t ts IH]; intros s.
+  - reflexivity.
+  - destruct t; cbn [map tok_atom amatch tmatch].
+    + apply (star_by_congr (fun _ => True)); auto.
+    + apply (star_by_congr (fun _ => True)); auto.
+    + destruct s as [|x s']; [reflexivity|]. rewrite IH. reflexivity.
+    + destruct s as [|x s']; [reflexivity|]. rewrite IH. reflexivity.
+Qed.
+
+(* without the flag they agree on haystacks without line feed only *)
+Lemma amatch_old_tmatch : forall ts s, no_nl s = true ->
+  amatch false (map tok_atom ts) s = tmatch ts s.
 Proof.
   induction ts as [|t ts IH]; intros s Hs.
   - reflexivity.
-  - destruct t; cbn [map tok_atom rmatch tmatch].
+  - destruct t; cbn [map tok_atom amatch tmatch].
     + (* GStar *)
       apply (star_by_congr (fun t => no_nl t = true));
         [exact no_nl_tail | exact IH | intros; reflexivity | exact Hs].
@@ -149,27 +180,37 @@ Proof.
       apply (star_by_congr (fun t => no_nl t = true));
         [exact no_nl_tail | exact IH | intros x t H; exact (no_nl_head _ _ H) | exact Hs].
     + (* GQuest *)
-      destruct s as [|x s']; [reflexivity|].
+      destruct s as [|x s']; [reflexivity|]. unfold any_ok.
       rewrite (no_nl_head _ _ Hs), (IH _ (no_nl_tail _ _ Hs)). reflexivity.
     + (* GChar *)
       destruct s as [|x s']; [reflexivity|].
       rewrite (IH _ (no_nl_tail _ _ Hs)). reflexivity.
 Qed.
 
-Theorem glob_regex_correct : forall p s, no_nl s = true ->
+Theorem glob_regex_correct : forall p s,
   regex_is_match (glob_to_regex p) s = Some (glob_match p s).
 Proof.
-  intros p s Hs. unfold regex_is_match, glob_match.
-  rewrite parse_glob_to_regex, rmatch_tmatch by exact Hs. reflexivity.
+  intros p s. unfold regex_is_match, glob_match, rmatch.
+  rewrite parse_glob_to_regex. cbn [fst snd]. rewrite amatch_tmatch. reflexivity.
 Qed.
 
-(* without the side condition the statement is false: `?` and `**` do not match a line feed *)
-Lemma glob_regex_newline_refuted :
-  regex_is_match (glob_to_regex [c_quest]) [c_nl] = Some false /\
+Theorem glob_regex_old_correct : forall p s, no_nl s = true ->
+  regex_is_match (glob_to_regex_old p) s = Some (glob_match p s).
+Proof.
+  intros p s Hs. unfold regex_is_match, glob_match, rmatch.
+  rewrite parse_glob_to_regex_old. cbn [fst snd]. rewrite amatch_old_tmatch by exact Hs.
+  reflexivity.
+Qed.
+
+(* the regression repaired by dae5143: without the flag, `?` and `**` refused a line feed *)
+Lemma glob_regex_old_newline_refuted :
+  regex_is_match (glob_to_regex_old [c_quest]) [c_nl] = Some false /\
   glob_match [c_quest] [c_nl] = true /\
-  regex_is_match (glob_to_regex [c_star; c_star]) [c_nl] = Some false /\
+  regex_is_match (glob_to_regex_old [c_star; c_star]) [c_nl] = Some false /\
   glob_match [c_star; c_star] [c_nl] = true /\
-  regex_is_match (glob_to_regex [c_star]) [c_nl] = Some true.
+  regex_is_match (glob_to_regex_old [c_star]) [c_nl] = Some true /\
+  regex_is_match (glob_to_regex [c_quest]) [c_nl] = Some true /\
+  regex_is_match (glob_to_regex [c_star; c_star]) [c_nl] = Some true.
 Proof. repeat split; vm_compute; reflexivity. Qed.
 
 (* ================================================================================ *)
@@ -193,15 +234,15 @@ Proof.
         right. split; [exact Hy|]. exists w, t. auto.
 Qed.
 
-(* language of one atom / of an anchored regex *)
-Inductive amatches : atom -> list N -> Prop :=
-| am_lit : forall c, amatches (ALit c) [c]
-| am_any : forall x, x <> c_nl -> amatches AAny [x]
-| am_anystar : forall w, Forall (fun x => x <> c_nl) w -> amatches AAnyStar w
-| am_segstar : forall w, Forall (fun x => x <> c_slash) w -> amatches ASegStar w.
-Inductive rmatches : regex -> list N -> Prop :=
-| rm_nil : rmatches [] []
-| rm_cons : forall a r w t, amatches a w -> rmatches r t -> rmatches (a :: r) (w ++ t).
+(* language of one atom / of an anchored regex, for a given value d of the flag `s` *)
+Inductive amatches (d : bool) : atom -> list N -> Prop :=
+| am_lit : forall c, amatches d (ALit c) [c]
+| am_any : forall x, d = true \/ x <> c_nl -> amatches d AAny [x]
+| am_anystar : forall w, Forall (fun x => d = true \/ x <> c_nl) w -> amatches d AAnyStar w
+| am_segstar : forall w, Forall (fun x => x <> c_slash) w -> amatches d ASegStar w.
+Inductive rmatches (d : bool) : list atom -> list N -> Prop :=
+| rm_nil : rmatches d [] []
+| rm_cons : forall a r w t, amatches d a w -> rmatches d r t -> rmatches d (a :: r) (w ++ t).
 
 Lemma forallb_neq : forall c w,
   forallb (fun x => negb (x =? c)) w = true <-> Forall (fun x => x <> c) w.
@@ -211,31 +252,44 @@ Proof.
   - apply negb_true_iff, N.eqb_neq. auto.
 Qed.
 
-Lemma rmatch_spec : forall r s, rmatch r s = true <-> rmatches r s.
+Lemma any_ok_iff : forall d x, any_ok d x = true <-> (d = true \/ x <> c_nl).
 Proof.
-  induction r as [|a r IH]; intros s.
+  intros d x. unfold any_ok, not_nl. rewrite orb_true_iff, negb_true_iff, N.eqb_neq. tauto.
+Qed.
+
+Lemma forallb_any_ok : forall d w,
+  forallb (any_ok d) w = true <-> Forall (fun x => d = true \/ x <> c_nl) w.
+Proof.
+  intros d w. rewrite forallb_forall, Forall_forall.
+  split; intros H x Hx; apply any_ok_iff; auto.
+Qed.
+
+Lemma amatch_spec : forall d r s, amatch d r s = true <-> rmatches d r s.
+Proof.
+  intros d. induction r as [|a r IH]; intros s.
   - cbn. destruct s; split; intros H; try discriminate; try constructor. inversion H.
-  - destruct a; cbn [rmatch].
+  - destruct a; cbn [amatch].
     + (* ALit *) destruct s as [|x s'].
       * split; [discriminate|]. intros H. inversion H as [|? ? ? ? Ha Hr E1 E2]; subst.
         inversion Ha; subst. discriminate.
       * rewrite andb_true_iff, N.eqb_eq, IH. split.
-        -- intros [-> Hr]. apply (rm_cons (ALit c) r [c] s'); [constructor|exact Hr].
+        -- intros [-> Hr]. apply (rm_cons d (ALit c) r [c] s'); [constructor|exact Hr].
         -- intros H. inversion H as [|? ? ? ? Ha Hr E1 E2]; subst. inversion Ha; subst.
            cbn in E2. injection E2 as -> ->. auto.
     + (* AAny *) destruct s as [|x s'].
       * split; [discriminate|]. intros H. inversion H as [|? ? ? ? Ha Hr E1 E2]; subst.
         inversion Ha; subst. discriminate.
-      * unfold not_nl. rewrite andb_true_iff, negb_true_iff, N.eqb_neq, IH. split.
-        -- intros [Hx Hr]. apply (rm_cons AAny r [x] s'); [constructor; exact Hx|exact Hr].
+      * rewrite andb_true_iff, any_ok_iff, IH. split.
+        -- intros [Hx Hr]. apply (rm_cons d AAny r [x] s'); [constructor; exact Hx|exact Hr].
         -- intros H. inversion H as [|? ? ? ? Ha Hr E1 E2]; subst. inversion Ha; subst.
            cbn in E2. injection E2 as -> ->. auto.
     + (* AAnyStar *) rewrite star_by_spec. split.
       * intros (w & t & -> & Hw & Hk). constructor.
-        -- constructor. apply forallb_neq. exact Hw.
+        -- constructor. apply forallb_any_ok. exact Hw.
         -- apply IH. exact Hk.
       * intros H. inversion H as [|? ? ? ? Ha Hr E1 E2]; subst. inversion Ha; subst.
-        exists w, t. split; [reflexivity|]. split; [apply forallb_neq; assumption|apply IH; assumption].
+        exists w, t. split; [reflexivity|].
+        split; [apply forallb_any_ok; assumption|apply IH; assumption].
     + (* ASegStar *) rewrite star_by_spec. split.
       * intros (w & t & -> & Hw & Hk). constructor.
         -- constructor. apply forallb_neq. exact Hw.
@@ -243,6 +297,9 @@ Proof.
       * intros H. inversion H as [|? ? ? ? Ha Hr E1 E2]; subst. inversion Ha; subst.
         exists w, t. split; [reflexivity|]. split; [apply forallb_neq; assumption|apply IH; assumption].
 Qed.
+
+Lemma rmatch_spec : forall r s, rmatch r s = true <-> rmatches (fst r) (snd r) s.
+Proof. intros r s. apply amatch_spec. Qed.
 
 (* the documented meaning of a pattern: the key is a concatenation of one piece per token *)
 Inductive gmatches1 : gtok -> list N -> Prop :=
@@ -465,17 +522,14 @@ Proof.
 Qed.
 
 Theorem expand_is_ref : forall keys p,
-  Forall (fun k => no_nl k = true) keys ->
   expand (Some keys) p = Ok (expand_ref keys p).
 Proof.
-  intros keys p Hk. unfold expand, expand_ref. rewrite parse_glob_to_regex. f_equal. f_equal.
-  rewrite Forall_forall in Hk.
-  assert (E : forall k, In k keys ->
-              rmatch (map tok_atom (glob_tokens p)) k = glob_match p k).
-  { intros k Hin. unfold glob_match. apply rmatch_tmatch. apply Hk. exact Hin. }
+  intros keys p. unfold expand, expand_ref. rewrite parse_glob_to_regex. f_equal. f_equal.
+  assert (E : forall k, rmatch (true, map tok_atom (glob_tokens p)) k = glob_match p k).
+  { intros k. unfold glob_match, rmatch. cbn [fst snd]. apply amatch_tmatch. }
   rewrite filter_filter_imp.
-  - apply filter_ext_in. exact E.
-  - intros k Hin Hm. apply prefix_sound. rewrite <- E by exact Hin. exact Hm.
+  - apply filter_ext. exact E.
+  - intros k Hin Hm. apply prefix_sound. rewrite <- E. exact Hm.
 Qed.
 
 Theorem expand_ref_spec : forall keys p,
